@@ -29,3 +29,8 @@ claim("C16",
       "Decides that every removal site of either back-end is paired on all paths with AfterMessageDeleted.Emit of the removed message (directly or in every caller), that Deliver emits AfterMessageStored carrying the AddMessage id after every successful store and nothing else emits it, and that the async broker does not spawn a goroutine per event (currently a recorded known finding). Exactly-once at run time and cross-broker ordering are not decided.",
       "Trusts go/ssa; the generic broker is analysed through its instantiations.",
       "DESIGN.md section 4, C16")
+claim("C11",
+      "file-system effect inventory with path-class classification of arguments; dominance/ordering predicates over go/ssa",
+      "Decides that the file store's write protocol has the crash-safe shape: nothing truncates the live index (temp file, successful flush+close, then rename), the raw file is complete before the index names it and is removed on every later error return, the index is updated before a raw file is unlinked and unlinked before a mailbox directory is removed, and every fs-mutating call in the package is in the classified inventory. Crash points themselves are not enumerated; fsync durability and partial temp writes are not decided.",
+      "Trusts go/ssa and POSIX rename atomicity; assumes an absent index reads as an empty mailbox.",
+      "DESIGN.md section 4, C11")
